@@ -142,6 +142,13 @@ class Models04(StateModels):
             return out
         if q == 'TorControlProtocol._set_valid_events':
             return [(path, NONE)]
+        if path.heap.get(('g', 'summarise_steps')) and q in ('TorControlProtocol._do_authenticate', 'TorControlProtocol._auth_failed',
+                                                              'TorControlProtocol._safecookie_authchallenge', 'TorControlProtocol._bootstrap',
+                                                              'TorControlProtocol._do_password_authentication'):
+            # the next step of the authentication sequence (each is a unit of its own): logged with its argument
+            r = VOpaque('step_result', ex.fresh_int(path, 'step'))
+            self.glog_add(path, 'steps', (q.split('.')[-1], args[0] if args else NONE, r))
+            return [(path, r)]
         return StateModels.contract_for(self, ex, path, f, args, kw)
 
     def method(self, ex, path, recv, name, args, kw):
@@ -264,6 +271,20 @@ def _call(ctx, path, obj, meth, args=()):
     return ctx.ex.call(g[0][0], g[0][1], list(args), {})
 
 
+def _steps_after(ctx, p, deferred, value, failed=False):
+    """run the callbacks registered on `deferred` on a symbolic result / failure; -> [(path, [step names...], steps)]"""
+    from pyvc import chain as CH
+    q = p.fork()
+    q.heap[('g', 'summarise_steps')] = True
+    n0 = len(ctx.models.glog(q, 'steps'))
+    entries = CH.entries_of(ctx.models.glog(q, 'chain'), deferred)
+    out = []
+    for q2, v, bad in CH.run(ctx.ex, q, entries, value, failed=failed, models=ctx.models):
+        st = ctx.models.glog(q2, 'steps')[n0:]
+        out.append((q2, [x[0] for x in st], st, v, bad))
+    return out
+
+
 def _is_cb(c, kind, qual):
     return c[1] == kind and len(c[2]) >= 1 and isinstance(c[2][0], VFunc) and c[2][0].qualname.split('.')[-1] == qual
 
@@ -284,10 +305,15 @@ def unit_connection_made():
             ok = len(q) == 1 and concrete_of(q[0][0]) == (True, 'PROTOCOLINFO 1')
             ctx.oblige('post.only_protocolinfo_is_sent_first', p, B(ok),
                        clause='until Tor has accepted authentication the client sends nothing but PROTOCOLINFO, AUTHCHALLENGE and AUTHENTICATE')
-            okc = ok and len(chain) == 2 and all(c[0] is q[0][1] for c in chain) and _is_cb(chain[0], 'addCallback', '_do_authenticate') \
-                and _is_cb(chain[1], 'addErrback', '_auth_failed')
-            ctx.oblige('post.reply_goes_to_method_selection_failures_to_one_errback', p, B(okc),
-                       clause='failure funnels into one errback of the ready notification')
+            if ok:
+                reply = VStr(z3.String('protocolinfo_reply'))
+                for q2, names, st, v, bad in _steps_after(ctx, p, q[0][1], reply):
+                    ctx.oblige('post.reply_goes_to_method_selection', q2, B(names == ['_do_authenticate'] and st[0][1] is reply),
+                               clause='the reply to PROTOCOLINFO decides the authentication method')
+                fail = VOpaque('failure', 31)
+                for q2, names, st, v, bad in _steps_after(ctx, p, q[0][1], fail, failed=True):
+                    ctx.oblige('post.failures_go_to_the_one_errback', q2, B(names == ['_auth_failed'] and st[0][1] is fail),
+                               clause='failure funnels into one errback of the ready notification')
     return run
 
 
@@ -384,19 +410,20 @@ def unit_do_authenticate():
             ctx.oblige('post.no_usable_method_fails_and_sends_nothing', p,
                        z3.Implies(want_fail, B((raised or len(failed) == 1) and len(q) == 0 and not mayd)),
                        clause='failure otherwise; a cookie that is not 32 bytes is never used')
-            # chains
+            # what happens to the reply of the command sent / to the provider's answer (the registered callbacks are run)
             if len(q) == 1 and not raised:
-                mine = [c for c in chain if c[0] is q[0][1]]
-                ok_chal = len(mine) == 2 and _is_cb(mine[0], 'addCallback', '_safecookie_authchallenge') and _is_cb(mine[1], 'addCallback', '_bootstrap')
-                ok_plain = len(mine) == 1 and _is_cb(mine[0], 'addCallback', '_bootstrap')
-                ctx.oblige('post.reply_continues_with_challenge_check_then_bootstrap', p,
-                           z3.If(want_chal, B(ok_chal and r is q[0][1]), B(ok_plain and r is q[0][1])),
-                           clause='ready notification: success only after authentication and the bootstrap queries succeeded')
+                reply = VStr(z3.String('command_reply'))
+                for q2, names, st, v, bad in _steps_after(ctx, p, q[0][1], reply):
+                    chal = names == ['_safecookie_authchallenge', '_bootstrap'] and st[0][1] is reply and st[1][1] is st[0][2]
+                    plain = names == ['_bootstrap'] and st[0][1] is reply
+                    ctx.oblige('post.reply_continues_with_challenge_check_then_bootstrap', q2, z3.If(want_chal, B(chal), B(plain)),
+                               clause='ready notification: success only after authentication and the bootstrap queries succeeded')
+                ctx.oblige('post.the_caller_waits_for_that_command', p, B(r is q[0][1]))
             if asked and not raised:
-                mine = [c for c in chain if c[0] is mayd[0][0]]
-                ok_pw = len(mine) == 2 and _is_cb(mine[0], 'addCallback', 'maybe_coroutine') and _is_cb(mine[1], 'addCallback', '_do_password_authentication') \
-                    and r is mayd[0][0]
-                ctx.oblige('post.password_goes_to_password_authentication', p, B(ok_pw))
+                pw = VStr(z3.String('provided_password'))
+                for q2, names, st, v, bad in _steps_after(ctx, p, mayd[0][0], pw):
+                    ctx.oblige('post.password_goes_to_password_authentication', q2,
+                               B(names == ['_do_password_authentication'] and st[0][1] is pw and r is mayd[0][0]))
     return run
 
 
@@ -530,11 +557,16 @@ def unit_password():
                 ctx.oblige('post.empty_password_refused_nothing_sent', p, zand(empty, B(len(q) == 0)))
                 continue
             ok = len(q) == 1 and isinstance(q[0][0], (VBytes, VStr))
-            mine = [c for c in chain if ok and c[0] is q[0][1]]
-            okc = len(mine) == 2 and _is_cb(mine[0], 'addCallback', '_bootstrap') and _is_cb(mine[1], 'addErrback', '_auth_failed')
-            ctx.oblige('post.password_sent_hex_then_bootstrap_failures_to_auth_failed', p,
-                       zand(z3.Not(empty), B(ok and okc)) if ok else B(False),
-                       clause='ready notification: success only after authentication and the bootstrap queries succeeded, failure otherwise')
+            ctx.oblige('post.password_sent_only_when_not_empty', p, zand(z3.Not(empty), B(ok)) if ok else B(False))
+            if ok:
+                reply = VStr(z3.String('authenticate_reply'))
+                for q2, names, st, v, bad in _steps_after(ctx, p, q[0][1], reply):
+                    ctx.oblige('post.accepted_password_continues_with_bootstrap', q2, B(names == ['_bootstrap'] and st[0][1] is reply),
+                               clause='ready notification: success only after authentication and the bootstrap queries succeeded')
+                fail = VOpaque('failure', 32)
+                for q2, names, st, v, bad in _steps_after(ctx, p, q[0][1], fail, failed=True):
+                    ctx.oblige('post.refused_password_fails_the_ready_notification', q2, B(names == ['_auth_failed'] and st[0][1] is fail),
+                               clause='ready notification: failure otherwise')
     return run
 
 
